@@ -42,7 +42,7 @@ pub fn run(sink: &mut Sink, rng: &mut Rng, args: &Args) {
     let mut so = Stream::new("e2e_open", REQ, "chk_of_arrow", "schema", "outcome (schema * list Z * option Z)");
     let mut sd = Stream::new("e2e_drop", REQ, "chk_drop_columns", "schema * list str", "outcome schema");
     let rt = tokio::runtime::Builder::new_multi_thread().worker_threads(4).enable_all().build().unwrap();
-    let n = args.vol(14, 150);
+    let n = args.vol(12, 120);
     for k in 0..n {
         let g = Gen { plain_top: rng.chance(9, 10), plain_all: rng.chance(1, 3), unique_names: true, max_depth: 3, max_top: 4, with_meta: rng.bool() };
         let mut s = if k == 0 {
